@@ -23,8 +23,12 @@ pub mod channel { pub mod mpsc {
         let inner = Arc::new(Inner { q: UnsafeCell::new(Vec::new()), buffer, closed: UnsafeCell::new(false), parked: UnsafeCell::new(Vec::new()) });
         (Sender { inner: inner.clone(), task: Arc::new(Task { parked: Cell::new(false) }), maybe_parked: Cell::new(false) }, Receiver { inner })
     }
+    /// harness switch: when set, handing a message to a channel is a scheduler yield point (another thread may run between the
+    /// computation of a message and its delivery to the queue)
+    pub static mut YIELD_ON_SEND: bool = false;
     impl<T> Sender<T> {
         pub fn try_send(&mut self, msg: T) -> Result<(), TrySendError> {
+            if unsafe { YIELD_ON_SEND } { vsym::yield_now(); }
             if self.maybe_parked.get() { if self.task.parked.get() { return Err(TrySendError { full: true }); } self.maybe_parked.set(false); }
             if unsafe { *self.inner.closed.get() } { return Err(TrySendError { full: false }); }
             let q = unsafe { &mut *self.inner.q.get() };
